@@ -212,7 +212,7 @@ func runGoatBlock(rng *Rng, n int, st *Stats, param string) ([]string, []any) {
 			va, _ := valIdentity(w.ValPriv)
 			fillReq.Claims = append(fillReq.Claims, &goattypes.ClaimRequest{Id: uint64(ci), Validator: va, Recipient: common.BytesToAddress([]byte("claimer"))})
 		}
-		if r.Chance(7) { // a full mempool: 20 admissible relayer transactions
+		if r.Chance(10) { // a full mempool: 20 admissible relayer transactions
 			mem = nil
 			for i := 0; i < 20; i++ {
 				mem = append(mem, w.BuildTx(w.RelPriv, TxOpt{SeqOff: i, CheckState: true}, mkMsg(w, "goat.bitcoin.v1.MsgNewDeposits", w.RelAddr)))
@@ -228,6 +228,9 @@ func runGoatBlock(rng *Rng, n int, st *Stats, param string) ([]string, []any) {
 		st.Chk("C08-honest")
 		if fill.Process != "ACCEPT" || len(fill.TxCodes) == 0 || fill.TxCodes[0] != 0 || len(fill.PrepareTxs) > 16 {
 			st.Violate("C08", "honest", "honest-rejected", fmt.Sprintf("an honest proposal was not accepted / its block message failed: process=%s codes=%v err=%s%s", fill.Process, fill.TxCodes, fill.PrepareErr, fill.FinalizeErr), map[string]any{"height": w.Height})
+			// for block processing as a whole: every honest proposer's block is refused, the chain does not advance
+			st.Violate("C19", "liveness", "honest-proposal-rejected", fmt.Sprintf("block processing halts: the honest proposal for height %d (%d transactions, mempool %d) is refused: process=%s codes=%v err=%s%s", w.Height, len(fill.PrepareTxs), len(mem), fill.Process, fill.TxCodes, fill.PrepareErr, fill.FinalizeErr),
+				map[string]any{"height": w.Height, "mempool_txs": len(mem), "proposal_txs": len(fill.PrepareTxs)})
 			fresh()
 			continue
 		}
@@ -303,6 +306,23 @@ func runGoatBlock(rng *Rng, n int, st *Stats, param string) ([]string, []any) {
 		mut.apply(w, p, &facts)
 		if mut.name != "honest" {
 			p.BlockHash = payloadHash(p)
+		}
+		// the real inputs of VerifyDequeue: what the two modules hand over on the committed state (read on a
+		// throw-away cache context), the payload's extra data and transactions
+		dqCoq := "None"
+		{
+			cctx, _ := w.App.NewUncachedContext(false, cmtproto.Header{Height: w.App.LastBlockHeight(), Time: w.Now}).CacheContext()
+			if due, err := w.App.GoatKeeper.Dequeue(cctx); err == nil {
+				dueC := make([]string, len(due))
+				for i, t := range due {
+					dueC[i] = cB(t)
+				}
+				txC := make([]string, len(p.Transactions))
+				for i, t := range p.Transactions {
+					txC[i] = cB(t)
+				}
+				dqCoq = "(Some " + cTuple(cList(dueC), cB(p.ExtraData), cList(txC)) + ")"
+			}
 		}
 		proposer := w.ValAddr
 		signer := w.ValPriv
@@ -396,6 +416,9 @@ func runGoatBlock(rng *Rng, n int, st *Stats, param string) ([]string, []any) {
 			w.EL.mu.Unlock()
 		}
 		_ = c0
+		if strings.Contains(structural, "nil-payload") {
+			dqCoq = "None"
+		}
 		markCurrent(map[string]any{"kind": "proposal", "mutation": mut.name, "structural": structural, "height": w.Height, "proposal_txs": len(proposal)})
 		res := w.Process(proposal, proposer)
 		clearCurrent()
@@ -507,7 +530,7 @@ func runGoatBlock(rng *Rng, n int, st *Stats, param string) ([]string, []any) {
 			}
 		}
 		st.Sample(desc)
-		cases = append(cases, cTuple(cList(ptxs), facts.coq(), cBool(accepted), msgOK))
+		cases = append(cases, cTuple(cList(ptxs), facts.coq(), cBool(accepted), msgOK, dqCoq))
 		replays = append(replays, desc)
 	}
 	return cases, replays
@@ -544,6 +567,9 @@ func runFaults(rng *Rng, n int, st *Stats, param string) ([]string, []any) {
 		}
 		if kind == "nopayloadid" && phase != "prepare-fc" {
 			kind = "invalid"
+		}
+		if phase == "prepare-fc" && r.Chance(30) {
+			kind = []string{"invalid-with-id", "syncing-with-id"}[r.Intn(2)]
 		}
 		if strings.HasSuffix(kind, "-with-id") && phase != "prepare-fc" {
 			kind = strings.TrimSuffix(kind, "-with-id")
